@@ -1,0 +1,253 @@
+//go:build verif
+
+// Contracts for the verification machinery in /verif (comment-only; no code).
+// Session: the handshake state machine, counter discipline and authentication gating.
+// Cryptography (Noise, AEAD, signatures, replay filter) is behind assumed contracts.
+
+package p2pke
+
+//@ type Session
+//@   invariant isInit ==> (hsIndex == 0 || hsIndex == 2 || hsIndex == 4 || hsIndex == 8)
+//@   invariant !isInit ==> (hsIndex == 0 || hsIndex == 1 || hsIndex == 3 || hsIndex == 8)
+//@   invariant (isInit && hsIndex >= 2) || (!isInit && hsIndex >= 3) ==> nonce >= 16
+//@   invariant rp != nil
+//@   invariant (isInit && hsIndex == 0 ==> msgCache[0] != nil) && (!isInit && hsIndex == 1 ==> msgCache[1] != nil)
+//@   invariant (isInit && hsIndex == 2 ==> msgCache[2] != nil) && (!isInit && hsIndex == 3 ==> msgCache[3] != nil)
+
+//@ func newMessage
+//@   ensures len(ret) == 4 && fresh(ret) && ((ret[0]*256 + ret[1])*256 + ret[2])*256 + ret[3] == nonce
+//@
+//@ func ParseMessage
+//@   pure
+//@   ensures len(x) < 4 ==> ret1 != nil
+//@   ensures len(x) >= 4 ==> ret1 == nil && ret0 == x
+//@
+//@ func (Message).GetNonce
+//@   pure
+//@   requires len(m) >= 4
+//@   ensures ret == ((m[0]*256 + m[1])*256 + m[2])*256 + m[3]
+//@
+//@ func (Message).HeaderBytes
+//@   pure
+//@   requires len(m) >= 4
+//@   ensures ret == m[:4]
+//@
+//@ func (Message).Body
+//@   pure
+//@   requires len(m) >= 4
+//@   ensures ret == m[4:]
+//@
+//@ func (*Session).canSend
+//@   pure
+//@   ensures ret <==> ((s.isInit && s.hsIndex >= 3) || (!s.isInit && s.hsIndex >= 2))
+//@
+//@ func (*Session).canReceive
+//@   pure
+//@   ensures ret <==> s.hsIndex >= 2
+//@
+//@ func (*Session).IsReady
+//@   pure
+//@   ensures ret <==> ((s.isInit && s.hsIndex >= 3) || (!s.isInit && s.hsIndex >= 2))
+//@
+//@ func (*Session).checkExpired
+//@   pure
+//@   ensures ret == nil ==> now <= s.expiresAt && s.nonce < 4294967294
+//@
+//@ func (*Session).writeHandshake
+//@   requires inv(s)
+//@   modifies all(out)
+//@   ensures s.hsIndex >= 4 ==> ret == nil
+//@   ensures s.hsIndex < 4 && !(s.isInit && s.hsIndex == 0) && !(!s.isInit && s.hsIndex == 1) && !(s.isInit && s.hsIndex == 2) && !(!s.isInit && s.hsIndex == 3) ==> ret == nil
+//@   ensures s.isInit && s.hsIndex == 0 ==> len(ret) == len(out) + len(s.msgCache[0])
+//@   ensures !s.isInit && s.hsIndex == 1 ==> len(ret) == len(out) + len(s.msgCache[1])
+//@   ensures s.isInit && s.hsIndex == 2 ==> len(ret) == len(out) + len(s.msgCache[2])
+//@   ensures !s.isInit && s.hsIndex == 3 ==> len(ret) == len(out) + len(s.msgCache[3])
+//@
+//@ func (*Session).Handshake
+//@   requires inv(s)
+//@   modifies all(out)
+//@   ensures s.hsIndex >= 4 ==> ret == nil
+//@
+//@ func (*Session).Send
+//@   noframe
+//@   requires inv(s)
+//@   ensures inv(s)
+//@   ensures s.hsIndex == old(s.hsIndex) && s.isInit == old(s.isInit)
+//@   ensures ret1 == nil ==> old(s.nonce) >= 16 && old(s.nonce) < 4294967294 && s.nonce == old(s.nonce) + 1
+//@   ensures ret1 == nil ==> ((old(s.isInit) && old(s.hsIndex) >= 3) || (!old(s.isInit) && old(s.hsIndex) >= 2)) && now <= old(s.expiresAt)
+//@   ensures ret1 == nil ==> len(ret0) == len(out) + 4 + len(ptext) + 16
+//@   ensures ret1 != nil ==> s.nonce == old(s.nonce) && ret0 == nil
+//@   before call Encrypt:
+//@     assert arg2 == old(s.nonce) && arg2 >= 16 && arg4 == ptext
+//@     assert len(arg3) == 4 && ((arg3[0]*256 + arg3[1])*256 + arg3[2])*256 + arg3[3] == old(s.nonce)
+//@     assert len(arg1) == len(old(out)) + 4
+//@
+//@ func (*Session).Deliver
+//@   noframe
+//@   requires inv(s)
+//@   ghostvar decrypted = false
+//@   ensures inv(s)
+//@   ensures s.hsIndex >= old(s.hsIndex) && s.isInit == old(s.isInit)
+//@   ensures ret0 ==> ret2 == nil && old(s.hsIndex) >= 2 && s.hsIndex == 8 && ghost(decrypted)
+//@   ensures ret2 != nil ==> s.hsIndex == old(s.hsIndex) && s.nonce == old(s.nonce) && !ret0 && ret1 == nil
+//@   ensures now > old(s.expiresAt) ==> ret2 != nil
+//@   ensures len(incoming) < 4 ==> ret2 != nil
+//@   before call Decrypt:
+//@     assert s.hsIndex >= 2 && arg2 == nonce && nonce >= 4 && arg3 == incoming[:4] && arg4 == incoming[4:] && arg1 == out
+//@   after call Decrypt:
+//@     set decrypted = res1 == nil
+//@   before call (*Filter).ValidateCounter:
+//@     assert ghost(decrypted) && arg1 == nonce && arg2 == 4294967294
+//@
+//@ func (*Session).readHandshake
+//@   noframe
+//@   requires inv(s) && len(msg) >= 4
+//@   ghostvar proved = false
+//@   ensures inv(s)
+//@   ensures s.hsIndex >= old(s.hsIndex) && s.isInit == old(s.isInit) && (old(s.hsIndex) <= 4 ==> s.hsIndex <= 4)
+//@   ensures ret != nil ==> s.hsIndex == old(s.hsIndex) && s.nonce == old(s.nonce)
+//@   ensures s.hsIndex != old(s.hsIndex) ==> ret == nil && ghost(proved)
+//@   ensures old(s.hsIndex) == 0 && s.hsIndex != 0 ==> (s.isInit ==> s.hsIndex == 2) && (!s.isInit ==> s.hsIndex == 1)
+//@   ensures old(s.hsIndex) == 1 && s.hsIndex != 1 ==> s.hsIndex == 3
+//@   ensures old(s.hsIndex) == 2 && s.hsIndex != 2 ==> s.hsIndex == 4
+//@   ensures old(s.hsIndex) >= 3 ==> s.hsIndex == old(s.hsIndex)
+//@   after call readInitHello:
+//@     set proved = res1 == nil
+//@   after call readRespHello:
+//@     set proved = res1 == nil
+//@   after call readInitDone:
+//@     set proved = res1 == nil
+//@   after call readRespDone:
+//@     set proved = res0 == nil
+
+// ---- the readers: a nil error means the peer's signature (or AEAD tag) verified -----------------
+
+//@ func createPreSig
+//@   inline
+//@   allowpanic
+//@
+//@ func verify
+//@   ghostvar sigok = false
+//@   ensures ret == nil ==> ghost(sigok)
+//@   after call Verify:
+//@     set sigok = res0
+//@   fnspec fn:
+//@     pure
+//@   fnspec Write:
+//@     pure
+//@   fnspec Sign:
+//@     pure
+//@   fnspec Verifier:
+//@     pure
+//@   fnspec Verify:
+//@     pure
+//@   fnspec Signer:
+//@     pure
+//@
+//@ func verifyAuthClaim
+//@   ghostvar claimok = false
+//@   ensures ret1 == nil ==> ghost(claimok)
+//@   after call verify:
+//@     set claimok = res0 == nil
+//@   fnspec fn:
+//@     pure
+//@   fnspec Write:
+//@     pure
+//@   fnspec Sign:
+//@     pure
+//@   fnspec Verifier:
+//@     pure
+//@   fnspec Verify:
+//@     pure
+//@   fnspec Signer:
+//@     pure
+//@
+//@ func readInitHello
+//@   requires len(msg) >= 4
+//@   ghostvar claimok = false
+//@   ensures ret1 == nil ==> ret0 != nil && ghost(claimok) && ret0.RespHello != nil
+//@   ensures ret1 != nil ==> ret0 == nil
+//@   after call verifyAuthClaim:
+//@     set claimok = res1 == nil
+//@   fnspec fn:
+//@     pure
+//@   fnspec Write:
+//@     pure
+//@   fnspec Sign:
+//@     pure
+//@   fnspec Verifier:
+//@     pure
+//@   fnspec Verify:
+//@     pure
+//@   fnspec Signer:
+//@     pure
+//@
+//@ func readRespHello
+//@   requires len(msg) >= 4
+//@   ghostvar claimok = false
+//@   ensures ret1 == nil ==> ret0 != nil && ghost(claimok) && ret0.InitDone != nil
+//@   ensures ret1 != nil ==> ret0 == nil
+//@   after call verifyAuthClaim:
+//@     set claimok = res1 == nil
+//@   before call Encrypt:
+//@     assert arg2 == 2
+//@   fnspec fn:
+//@     pure
+//@   fnspec Write:
+//@     pure
+//@   fnspec Sign:
+//@     pure
+//@   fnspec Verifier:
+//@     pure
+//@   fnspec Verify:
+//@     pure
+//@   fnspec Signer:
+//@     pure
+//@
+//@ func readInitDone
+//@   requires len(msg) >= 4
+//@   ghostvar sigok = false
+//@   ghostvar opened = false
+//@   ensures ret1 == nil ==> ret0 != nil && ghost(sigok) && ghost(opened) && ret0.RespDone != nil
+//@   ensures ret1 != nil ==> ret0 == nil
+//@   before call Decrypt:
+//@     assert arg2 == 2
+//@   after call Decrypt:
+//@     set opened = res1 == nil
+//@   after call verify:
+//@     set sigok = res0 == nil
+//@   before call Encrypt:
+//@     assert arg2 == 3
+//@   fnspec fn:
+//@     pure
+//@   fnspec Write:
+//@     pure
+//@   fnspec Sign:
+//@     pure
+//@   fnspec Verifier:
+//@     pure
+//@   fnspec Verify:
+//@     pure
+//@   fnspec Signer:
+//@     pure
+//@
+//@ func readRespDone
+//@   requires len(msg) >= 4
+//@   ghostvar opened = false
+//@   ensures ret == nil ==> ghost(opened)
+//@   before call Decrypt:
+//@     assert arg2 == 3
+//@   after call Decrypt:
+//@     set opened = res1 == nil
+//@   fnspec fn:
+//@     pure
+//@   fnspec Write:
+//@     pure
+//@   fnspec Sign:
+//@     pure
+//@   fnspec Verifier:
+//@     pure
+//@   fnspec Verify:
+//@     pure
+//@   fnspec Signer:
+//@     pure
